@@ -235,6 +235,36 @@ def r2(ctx):
                 rows.append((w, got))
             ok = all(bool(got) for _, got in rows)
             txt = "; ".join(f"match({w!r}) -> {g}" for w, g in rows if not g) or "all accepted"
+        # decode() itself on witness datagrams: every datagram in the vendor format gives exactly its fields (empty and comma-laden
+        # names included), anything else is refused with DecodeError
+        dci = m.get_class(f"{cls}DiscoveryDecoder")
+        dfn = dci.methods.get("decode")
+        if dfn is not None and mt is not None:
+            bp2 = dfn.args.args[1].arg
+            bad = None
+            for w in valid:
+                parts = w.split(b",", s["parts"] - 1)
+                want_f = {k: parts[i].decode("utf-8") for k, i in s["idx"].items()}
+                try:
+                    got = Mini(ctx.repo, m, {}, dci).function_value(dfn, {bp2: w})
+                except Unsupported as ex:
+                    raise AnalysisError(f"{m.relpath}: decode() left the evaluable fragment: {ex}")
+                gf = {k: v for k, v in getattr(got, "__dict__", {}).items() if not k.startswith("_")}
+                if getattr(got, "_cls", None) != f"{cls}DiscoveryResponse" or gf != want_f:
+                    bad = f"decode({w[:60]!r}) -> {gf if gf else got!r}, expected {want_f}"
+                    break
+            foreign = [s["req"], b"", b"junk", b"a,b,c", b"1.2.3.4,S," + (b"AirTouch5" if gen == "at4" else b"AirTouch4") + b",7" + (b"" if gen == "at4" else b",n"), b"1.2.3.4," + ident + b",S,7" + (b"" if gen == "at4" else b",n")]
+            for w in foreign:
+                if bad:
+                    break
+                try:
+                    got = Mini(ctx.repo, m, {}, dci).function_value(dfn, {bp2: w})
+                except Unsupported as ex:
+                    raise AnalysisError(f"{m.relpath}: decode() left the evaluable fragment: {ex}")
+                is_req = getattr(got, "_cls", None) == f"{cls}DiscoveryRequest"
+                if not (got == ("raise", "DecodeError") or (w == s["req"] and is_req)):
+                    bad = f"decode({w!r}) -> {getattr(got, '__dict__', got)!r}, expected DecodeError"
+            ctx.check(bad is None, R, f"{gen}:decode:witnesses", m, dfn, f"every vendor-format datagram decodes to exactly its fields ({len(valid)} witnesses); other datagrams are refused with DecodeError ({len(foreign)} witnesses)", bad or "")
         ctx.check(ok, R, f"{gen}:match", m, mt, "match() accepts every datagram in the vendor response format (commas in the name, empty and non-ASCII names included; evaluated on witness datagrams by the checker's own interpreter)", txt)
 
 
